@@ -1609,7 +1609,12 @@ class CommandTask : public Task {
       // Execute the command, with notifications to the delegate.
       command.execute(getBuildSystem(ti).getBuildSystem(), ti, context, [ti](BuildValue&& result) mutable {
         // Inform the engine of the result.
-        if (result.isFailedCommand()) {
+        //
+        // A command whose process was interrupted or killed although the build
+        // itself is not being cancelled (e.g., by the OOM killer) has failed:
+        // its outputs were not produced, so the build must not report success.
+        if (result.isFailedCommand() ||
+            (result.isCancelledCommand() && !ti.isCancelled())) {
           getBuildSystem(ti).getDelegate().hadCommandFailure();
         }
         ti.complete(result.toData());
